@@ -44,6 +44,23 @@
 (* there must be aligned); faces appended by hole filling (repair or       *)
 (* only_watertight); exact corner order inside a face (only the three      *)
 (* positions, and under its own clause name the cyclic order).             *)
+(*                                                                         *)
+(* process (the constructor's default path and Trimesh.process): drops     *)
+(* faces with a non-finite corner and merges vertices (merge_tex /         *)
+(* merge_norm, default digits); with validate it also drops repeated and   *)
+(* degenerate faces and may reverse faces (fix_normals), so only the three *)
+(* positions of a face are demanded there, not its cyclic order.  The      *)
+(* docstring lists validation after merging, the code validates first:     *)
+(* both readings of "repeated / degenerate" are accepted.                  *)
+(*                                                                         *)
+(* Presence: an operation that edits a mesh in place must leave every data *)
+(* channel that was attached (face / vertex attributes, colours, uv,       *)
+(* assigned vertex normals) attached while an element survives; results    *)
+(* that are new meshes (submesh, split, concatenate) must keep the visual  *)
+(* channel and, for concatenate, the assigned vertex normals (the code     *)
+(* carries them); user attributes and vertex normals that submesh / split  *)
+(* / concatenate do not copy are not demanded (the statement is read as    *)
+(* "aligned where present" for new meshes, DESIGN section 4).              *)
 (***************************************************************************)
 \* NB clause names stay short: TLC wraps PrintT output at 80 columns.
 EXTENDS Integers, Sequences, FiniteSets, TLC, Json
@@ -124,7 +141,7 @@ Reach(A, Sym) == LET Nx == A \cup {p[2] : p \in {q \in Sym : q[1] \in A}}
 FaceComponents(F) == LET adj == AdjPairs(F) IN {Reach({f}, adj) : f \in 0..(Len(F) - 1)}
 
 \* ------------------------------------------------- what counts as "the same"
-Merging(c) == c.op = "merge_vertices"
+Merging(c) == c.op \in {"merge_vertices", "process"}
 PK(c, p) == IF p <= 0 THEN p ELSE IF Merging(c) /\ c.o.dv THEN RowOf(p) ELSE p
 UvActive(c) == c.vis = "texture" /\ ~c.o.mt        \* merge_tex=False keeps different uv apart
 NrmActive(c) == c.hasn /\ ~c.o.mn                   \* merge_norm=False keeps different normals apart
@@ -159,6 +176,12 @@ AllMatch(c, T, chs, PS) ==
 KeptByVertices(c, K) == SortSet({t \in FaceIds(c) : Range(Fc(c, t)) \subseteq K})
 \* repeated faces: the same three slots (as a bag), in any corner order
 SlotClass(c, t) == {u \in FaceIds(c) : Sort3(Fc(c, u)) = Sort3(Fc(c, t))}
+\* the other reading of validation (after the merge): faces whose corners fall into the same three merged
+\* groups are repeats of each other, a face with two corners in one group (or zero area) is degenerate
+KeyCode(c, s) == LET k == Key(c, s) IN (k[1] * 16 + k[2]) * 8 + k[3]
+KeyFace(c, t) == Sort3([j \in 1..3 |-> KeyCode(c, Fc(c, t)[j])])
+KeyClass(c, t, dom) == {u \in dom : KeyFace(c, u) = KeyFace(c, t)}
+DegenerateMerged(c, t) == Degenerate(c, t) \/ Cardinality({KeyCode(c, Fc(c, t)[j]) : j \in 1..3}) < 3
 Entries(c) == [k \in 1..Len(c.seq) |-> MaskSeq(c.seq[k].k, c.seq[k].m)]
 NonEmptyIdx(c) == {k \in 1..Len(c.seq) : Len(Entries(c)[k]) > 0}
 FacesOf(c, ts) == [k \in 1..Len(ts) |-> Fc(c, ts[k])]
@@ -181,6 +204,13 @@ Exact(c) ==
       [] c.op = "update_faces" -> {<<MaskSeq(c.mk, c.mask)>>}
       [] c.op = "remove_duplicate_faces" ->
             {<<SortSet(R)>> : R \in Transversals({SlotClass(c, t) : t \in FaceIds(c)})}
+      [] c.op = "process" ->
+            LET fin == {t \in FaceIds(c) : ~HasNonFinite(c, t)} IN
+            IF ~c.o.val THEN {<<SortSet(fin)>>}
+            ELSE LET keepA == {t \in fin : ~Degenerate(c, t)}
+                     keepB == {t \in fin : ~DegenerateMerged(c, t)}
+                 IN {<<SortSet(R \cap keepA)>> : R \in Transversals({SlotClass(c, t) : t \in FaceIds(c)})}
+                    \cup {<<SortSet(R \cap keepB)>> : R \in Transversals({KeyClass(c, t, fin) : t \in fin})}
       [] c.op = "remove_degenerate_faces" ->
             LET keep == {t \in FaceIds(c) : ~Degenerate(c, t) /\ ~HasNonFinite(c, t)}
                 free == {t \in FaceIds(c) : ~Degenerate(c, t) /\ HasNonFinite(c, t)}
@@ -195,7 +225,10 @@ Exact(c) ==
             LET comps == FaceComponents(c.faces) IN
             IF Cardinality(comps) > 7 THEN {}      \* outside the scope of this reference (RefSane stops the run)
             ELSE IF ~c.o.ow THEN {[k \in 1..Len(f) |-> SortSet(f[k])] : f \in Perms(comps)}
-            ELSE LET cand == {C \in comps : Cardinality(C) >= 4}
+            \* a component of fewer than four faces may come back closed by hole repair (the networkx engine
+            \* hands such components on, the scipy engine discards them first): which open parts are
+            \* discarded is not part of the statement
+            ELSE LET cand == comps
                      must == {C \in cand : Closed(c, SortSet(C))}
                  IN UNION {{[k \in 1..Len(f) |-> SortSet(f[k])] : f \in Perms(S)} :
                            S \in {S \in SUBSET cand : must \subseteq S}}
@@ -273,6 +306,18 @@ CountsOK(c, out) == /\ (out.fcn >= 0 => out.fcn = Len(out.faces))
                     /\ ChanLen(out.uv, Len(out.ppos)) /\ ChanLen(out.vn, Len(out.ppos))
                     /\ (~ExtraOK(c) => ChanLen(out.fa, Len(out.faces)) /\ ChanLen(out.fc, Len(out.faces)))
 
+\* presence (see the header): a channel that was attached stays attached while an element survives
+InPlace(c) == c.op \notin {"submesh", "split", "concatenate"}
+AttrKept(c, out) == ~InPlace(c) \/ ((Len(out.faces) > 0 => out.fa.has) /\ (Len(out.ppos) > 0 => out.va.has))
+VisualKept(c, out) ==
+    /\ (c.vis = "face" /\ Len(out.faces) > 0 => out.fc.has)
+    /\ (c.vis = "vertex" /\ Len(out.faces) > 0 /\ Len(out.ppos) > 0 => out.vc.has)
+    /\ (c.vis = "texture" /\ Len(out.ppos) > 0 => out.uv.has)
+\* c.carry: in-place operations and concatenation of the meshes themselves; a Scene hands copies of its
+\* geometry to the concatenation, and what Trimesh.copy() keeps is another property's question (C17)
+NormalsKept(c, out) ==
+    (c.hasn /\ c.carry /\ (InPlace(c) \/ c.op = "concatenate") /\ Len(out.faces) > 0 /\ Len(out.ppos) > 0) => out.vn.has
+
 FaceChanOK(ch, ts) == ~ch.has \/ (Len(ch.v) >= Len(ts) /\ \A k \in 1..Len(ts) : ch.v[k] = ts[k])
 
 \* ---------------------------------------------- operation-specific clauses
@@ -320,12 +365,14 @@ Clause(c) ==
         all == 1..Len(outs)
         S1 == {T \in Exact(c) : ShapeOK(c, T)}
         S2 == {T \in S1 : AllMatch(c, T, {}, Perm3)}
-        S3 == {T \in S2 : AllMatch(c, T, {}, Rot3)}
+        \* validation may reverse faces (fix_normals): the cyclic order is demanded everywhere else
+        PS == IF c.op = "process" /\ c.o.val THEN Perm3 ELSE Rot3
+        S3 == {T \in S2 : AllMatch(c, T, {}, PS)}
         S4 == {T \in S3 : \A m \in 1..Len(T) : FaceChanOK(outs[m].fa, T[m])}
-        S5 == {T \in S4 : AllMatch(c, T, {"va"}, Rot3)}
-        S6 == {T \in S5 : AllMatch(c, T, {"va", "vc"}, Rot3)}
-        S7 == {T \in S6 : AllMatch(c, T, {"va", "vc", "uv"}, Rot3)}
-        S8 == {T \in S7 : AllMatch(c, T, {"va", "vc", "uv", "vn"}, Rot3)}
+        S5 == {T \in S4 : AllMatch(c, T, {"va"}, PS)}
+        S6 == {T \in S5 : AllMatch(c, T, {"va", "vc"}, PS)}
+        S7 == {T \in S6 : AllMatch(c, T, {"va", "vc", "uv"}, PS)}
+        S8 == {T \in S7 : AllMatch(c, T, {"va", "vc", "uv", "vn"}, PS)}
         S9 == {T \in S8 : \A m \in 1..Len(T) : FaceChanOK(outs[m].fc, T[m])}
         \* two faces at the same three positions can be told apart by what their corners carry
         reordered == c.op = "split" /\ \E T \in S1 : FullOrderOnly(c, T)
@@ -337,6 +384,8 @@ Clause(c) ==
     ELSE IF S2 = {} THEN (IF \E T \in S1 : OrderOnly(c, T) THEN "relative_order" ELSE "corner_positions")
     ELSE IF S3 = {} THEN (IF reordered THEN "relative_order" ELSE "winding_cyclic_order")
     ELSE IF \E m \in all : ~CountsOK(c, outs[m]) THEN "data_row_count"
+    ELSE IF \E m \in all : ~AttrKept(c, outs[m]) THEN "attribute_dropped"
+    ELSE IF \E m \in all : ~VisualKept(c, outs[m]) THEN "visual_data_dropped"
     ELSE IF S4 = {} THEN "face_attribute"
     ELSE IF \E m \in all : ~FaceNormalOK(outs[m]) THEN "face_normal"
     ELSE IF S5 = {} THEN (IF reordered THEN "relative_order" ELSE "vertex_attribute_at_corner")
@@ -354,6 +403,8 @@ Clause(c) ==
     ELSE IF IsRoundTrip(c) /\ ~BagEq(CatKeys(c, c.cat[1], FALSE), OrigKeys(c, FALSE)) THEN "split_concat_multiset"
     ELSE IF IsRoundTrip(c) /\ ~BagEq(CatKeys(c, c.cat[1], TRUE), OrigKeys(c, TRUE)) THEN "split_concat_multiset_winding"
     ELSE IF S9 = {} THEN "face_color"
+    \* last, so that a record is never excused from another clause by this one
+    ELSE IF \E m \in all : ~NormalsKept(c, outs[m]) THEN "stored_vertex_normals_dropped"
     ELSE "ok"
 
 Init == i = 1
@@ -369,7 +420,7 @@ RefSane ==
     /\ \A s \in Slots(c) : P(c, s) \in 0..MaxPos /\ (c.op = "update_vertices_inv" \/ s \in Target(c, s))
     /\ \A t \in FaceIds(c) : Range(Fc(c, t)) \subseteq Slots(c)
     /\ UNION comps = FaceIds(c) /\ \A A, B \in comps : A = B \/ A \cap B = {}
-    /\ c.op = "update_vertices_inv" =>
+    /\ (c.op = "update_vertices_inv" /\ c.exc = "") =>
            \A s \in Referenced(c) : P(c, c.mask[c.inv[s + 1] + 1]) = P(c, s)
     \* distinct table entries are distinct points, and row 5 is collinear with rows 1 and 2
     /\ \A p, q \in 1..MaxPos : p = q \/ XYZ(p) # XYZ(q)
